@@ -71,7 +71,8 @@ def exec_job(job):
             except Exception as ex:  # noqa
                 e["re_exc"] = core.exc_name(ex)
         elif a == "Proto":
-            e.update(inp=optok(job["inp"]), number=0, line=optok("0"), pname="", re_exc="", re_number=0, ace_exc="", ace_number=0, ace_line=optok("0"))
+            e.update(inp=optok(job["inp"]), number=0, line=optok("0"), pname="", re_exc="", re_number=0, ace_exc="", ace_number=0, ace_line=optok("0"),
+                     with_ports=dict(done=False, number=0, sp=[], dp=[]), generated=dict(done=False, n=0, number=0, sp=[], dp=[]))
             kw = dict(platform=job["plat"], protocol_nr=job["nr"], has_port=job["has_port"])
             p = Protocol(job["inp"], **kw)
             e["number"], e["line"], e["pname"] = p.number, optok(p.line), p.name
@@ -82,6 +83,15 @@ def exec_job(job):
             try:    # the same spelling as the protocol of an entry (the ACE line parser must accept it back too)
                 ace = Ace(f"permit {p.line} any any", platform=job["plat"], protocol_nr=job["nr"])
                 e["ace_number"], e["ace_line"] = ace.protocol.number, optok(ace.line.split()[1])
+                if p.number in (6, 17):     # tcp / udp, however spelled, may carry port expressions; the switch changes text only
+                    import cisco_acl
+                    a2 = Ace(f"permit {job['inp']} any eq 1000 any eq 2000", platform=job["plat"], protocol_nr=job["nr"])
+                    e["with_ports"] = dict(done=True, number=a2.protocol.number, sp=list(a2.srcport.items), dp=list(a2.dstport.items))
+                    if job["plat"] != "asa":
+                        out = cisco_acl.range_protocols(protocols=str(p.number), line="permit tcp any eq 1000 any eq 2000", platform=job["plat"],
+                                                        protocol_nr=job["nr"])
+                        a3 = Ace(out[0], platform=job["plat"], protocol_nr=job["nr"])
+                        e["generated"] = dict(done=True, n=len(out), number=a3.protocol.number, sp=list(a3.srcport.items), dp=list(a3.dstport.items))
             except Exception as ex:  # noqa
                 e["ace_exc"] = core.exc_name(ex)
         elif a == "Split":
